@@ -1,5 +1,5 @@
 import Blots.Lemmas.FormatPieces
-import Blots.Lemmas.ExprPegLemmas
+import Blots.Lemmas.ExprPeg2Lemmas
 /-
   The formatter on the FRAGMENT of C10 (`Frag`: operators, calls, index and field accesses, list
   literals, lambdas, conditionals), at text level (C07 / C08 end to end).
